@@ -221,6 +221,12 @@ pub struct Ctx {
     pub shard: Option<(String, u32, u32)>,
     /// per-case wall-clock limit (properties about termination); None = no watchdog
     pub case_timeout_s: Option<f64>,
+    /// run cases on a worker thread of a one-thread global rayon pool (fast path for tensor code,
+    /// see `in_pool`). Must be off for properties whose cases block on other threads that need
+    /// the global pool themselves (progress mode, concurrent companion samplers): those run on a
+    /// plain thread with `plain_pool_threads` free global workers.
+    pub use_pool_thread: bool,
+    pub plain_pool_threads: usize,
     pub replay_path: Option<String>,
     pub unconfirmed_timeouts: u32,
     start: Instant,
@@ -340,6 +346,8 @@ impl Ctx {
             replay_hit: false,
             shard: None,
             case_timeout_s: None,
+            use_pool_thread: true,
+            plain_pool_threads: 3,
             replay_path: None,
             unconfirmed_timeouts: 0,
             start: Instant::now(),
@@ -463,7 +471,11 @@ impl Ctx {
             cov.evaluations += 1;
             let r = {
                 let (check, case, cov) = (&check, &case, &mut cov);
-                in_pool(move || run_checked(check, case, cov))
+                if self.use_pool_thread {
+                    in_pool(move || run_checked(check, case, cov))
+                } else {
+                    run_checked(check, case, cov)
+                }
             };
             if let Err(f) = r {
                 self.report_failure(name, &case, &f);
@@ -496,7 +508,11 @@ impl Ctx {
             let stop = std::sync::atomic::AtomicBool::new(false);
             let (cov, fail, known_seen) = {
                 let (check, make_strategy, known_sigs, stop) = (&check, &make_strategy, &known_sigs, &stop);
-                in_pool(move || run_shard(n, seed, make_strategy(), check, known_sigs, stop))
+                if self.use_pool_thread {
+                    in_pool(move || run_shard(n, seed, make_strategy(), check, known_sigs, stop))
+                } else {
+                    run_shard(n, seed, make_strategy(), check, known_sigs, stop)
+                }
             };
             let res = ShardResult {
                 cov,
@@ -533,7 +549,11 @@ impl Ctx {
                 total.class("regress-file");
                 let r = {
                     let (check, case, total) = (&check, &case, &mut total);
-                    in_pool(move || run_checked(check, case, total))
+                    if self.use_pool_thread {
+                        in_pool(move || run_checked(check, case, total))
+                    } else {
+                        run_checked(check, case, total)
+                    }
                 };
                 if let Err(f) = r {
                     self.report_failure(name, &case, &f);
@@ -573,7 +593,7 @@ impl Ctx {
                     .arg(n.to_string())
                     .env("VERIF_SEED", self.seed.to_string())
                     .env("VERIF_DIR", &self.verif_dir)
-                    .env("RAYON_NUM_THREADS", "1")
+                    .env("RAYON_NUM_THREADS", if self.use_pool_thread { "1".to_string() } else { self.plain_pool_threads.to_string() })
                     .stdin(std::process::Stdio::null())
                     .stdout(std::process::Stdio::piped())
                     .stderr(std::process::Stdio::inherit())
@@ -614,7 +634,7 @@ impl Ctx {
                         .env("VERIF_HANG_CONFIRM", "1")
                         .env("VERIF_TIMEOUT_SCALE", "2")
                         .env("VERIF_DIR", &self.verif_dir)
-                        .env("RAYON_NUM_THREADS", "1")
+                        .env("RAYON_NUM_THREADS", if self.use_pool_thread { "1".to_string() } else { self.plain_pool_threads.to_string() })
                         .stdout(std::process::Stdio::null())
                         .status();
                     let _ = std::fs::remove_file(&cand);
